@@ -184,6 +184,11 @@ pub trait Family {
     fn exec(s: &Self::Scn, ctx: &mut Ctx);
     /// Candidate simplifications, most aggressive first.
     fn shrink(s: &Self::Scn) -> Vec<Self::Scn>;
+    /// Scenario-level tags, used for violations that cannot report their own
+    /// (a run that hangs or aborts the process).
+    fn scenario_tags(_s: &Self::Scn) -> Vec<String> {
+        vec![]
+    }
     /// Rule text for evidence.
     fn rule() -> &'static str;
     /// Components: (real, stub)
